@@ -7,21 +7,21 @@ import ChalkModel.Lemmas.FixedPointSemD
 namespace Chalk.FixedPoint.Cyc
 
 section
-variable {c : Bool} {inst : Instance} {dom : List Nat}
+variable {c : Bool} {inst : Instance} {dom : List Nat} {fx : Bool}
 variable {s0 st s1 : St} {g : Nat} {old cur : V} {m : Min} {new : List Node}
 
 /-- a node of the final graph, seen in `s1` -/
-theorem After.node1 (A : After c inst dom s0 st s1 g old cur m new) {h5 : Node} {i : Nat} {n : Node}
+theorem After.node1 (A : After c inst dom fx s0 st s1 g old cur m new) {h5 : Node} {i : Nat} {n : Node}
     (hn : (s0.graph ++ h5 :: new)[i]? = some n) :
     ∃ n', s1.graph[i]? = some n' ∧
       ((i = s0.graph.length ∧ n = h5 ∧ n' = headNode s0 g old) ∨ (i ≠ s0.graph.length ∧ n' = n)) := by
   obtain ⟨n', hn', hc⟩ := mid_corr s0.graph h5 (headNode s0 g old) new i n hn
   exact ⟨n', by rw [A.g1]; exact hn', hc⟩
 
-theorem After.finish_keep (A : After c inst dom s0 st s1 g old cur m new) {s5 : St} (P : Popped s0 s1 s5)
+theorem After.finish_keep (A : After c inst dom fx s0 st s1 g old cur m new) {s5 : St} (P : Popped s0 s1 s5)
     (hfl : ¬ flagAt s1.stack s0.stack.length ∨ old = cur) (l : Nat) (hm : m = some l)
     (hl : l < s0.graph.length) (hg5 : s5.graph = s0.graph ++ (⟨g, cur, none, m⟩ : Node) :: new) :
-    Inv c inst dom s5 ∧ Step c inst s0 s5 m := by
+    Inv c inst dom fx s5 ∧ Step c inst s0 s5 m := by
   have hv : flagAt s1.stack s0.stack.length → old = top c → (⟨g, cur, none, m⟩ : Node).solution = top c := by
     intro hf ho
     cases hfl with
@@ -30,8 +30,19 @@ theorem After.finish_keep (A : After c inst dom s0 st s1 g old cur m new) {s5 : 
   have hwit : ∀ {lb : Min} {j : Nat}, Wit c inst s1 lb j → Wit c inst s5 lb j :=
     fun h => A.wit P hg5 rfl rfl hv h
   constructor
-  · refine ⟨?_, ?_, A.popCo P, ?_, ?_, ?_, ?_, ?_, ?_, ?_, ?_, ?_⟩
-    · rw [P.oracle, P.oracleDefault, P.interrupted]; exact A.i1.quiet
+  · refine ⟨fixes_of_eq A.i1.fixes P.oracle P.oracleDefault P.interrupted, ?_, ?_, A.popCo P, ?_, ?_, ?_, ?_, ?_, ?_, ?_, ?_, ?_⟩
+    · intro i n hn ha
+      rw [P.interrupted]
+      rw [hg5] at hn
+      obtain ⟨n', hn', hcase⟩ := A.node1 hn
+      cases hcase with
+      | inl h =>
+        rw [h.2.1] at ha
+        have e : cur = .ambig := ha
+        have hf := A.fact
+        rw [e] at hf
+        exact hf.ambig
+      | inr h => rw [← h.2] at ha; exact A.i1.amb i n' hn' ha
     · exact fun k v h => A.i1.cacheOK k v (P.inCache.mp h)
     · have := A.i1.nodup
       rw [A.g1] at this
@@ -94,13 +105,20 @@ theorem After.finish_keep (A : After c inst dom s0 st s1 g old cur m new) {s5 : 
       · exact J.mono (fun j hj => hj.from0 ⟨_, hg5⟩ (fun d hd => (A.popExt P).flag hd))
           (A.L.i0.just i n h1.2 hd htop)
       · rw [h1.2] at htop ⊢
-        cases A.fact with
-        | inl h => exact J.mono (fun j hj => hwit hj) h.2
-        | inr h => rw [h.1] at htop; exact absurd htop.symm (top_ne_bot c)
+        rcases A.fact with h | h | h
+        · exact J.mono (fun j hj => hwit hj) h.2
+        · rw [h.1] at htop; exact absurd htop.symm (top_ne_bot c)
+        · rw [h.1] at htop; exact absurd htop.symm (top_ne_ambig c)
       · have hn1 : s1.graph[i]? = some n := by rw [A.g1]; exact h1.2.2 _
         exact J.mono (fun j hj => hwit hj) (A.i1.just i n hn1 hd htop)
   · refine ⟨⟨_, hg5, ?_⟩, A.popExt P, fun k v h => P.inCache.mpr (A.cacheExt k v h), ?_, ?_,
-      by rw [P.cache, A.step.cacheMode, A.L.cacheMode]⟩
+      by rw [P.cache, A.step.cacheMode, A.L.cacheMode],
+      fun e => by rw [P.interrupted]; exact A.step.intr (A.L.intr e),
+      fun q => by
+        obtain ⟨q1, i1⟩ := A.L.quiet q
+        obtain ⟨q2, i2⟩ := A.step.quiet q1
+        exact ⟨⟨by rw [P.oracle]; exact q2.1, by rw [P.oracleDefault]; exact q2.2⟩,
+          fun e => by rw [P.interrupted]; exact i2 (i1 e)⟩⟩
     · intro n hn
       cases List.mem_cons.mp hn with
       | inl e => rw [e]; exact ⟨rfl, MinLe.refl _⟩
@@ -124,6 +142,101 @@ theorem After.finish_keep (A : After c inst dom s0 st s1 g old cur m new) {s5 : 
           exact Or.inr ⟨hgo.symm, hvn⟩
         · have hn1 : s1.graph[i]? = some n := by rw [A.g1]; exact h1.2.2 _
           exact Or.inl (Or.inr ⟨i, n, hn1, hgo, hvn⟩)
+
+/-- the iteration was interrupted while the head's cycle flag was set: everything above the head has
+    been rolled back (F10), the head stays in the graph with the answer `ambig` -/
+theorem After.finish_keep_amb (A : After c inst dom fx s0 st s1 g old cur m new) (hcur : cur = .ambig) {s5 : St}
+    (P : Popped s0 s1 s5) (l : Nat) (hm : m = some l) (hl : l < s0.graph.length)
+    (hg5 : s5.graph = s0.graph ++ [(⟨g, .ambig, none, m⟩ : Node)]) :
+    Inv c inst dom fx s5 ∧ Step c inst s0 s5 m := by
+  have hint : s1.interrupted = true := by
+    have hf := A.fact
+    rw [hcur] at hf
+    exact hf.ambig
+  have hnode : ∀ {i : Nat} {n : Node}, s5.graph[i]? = some n →
+      (i < s0.graph.length ∧ s0.graph[i]? = some n) ∨
+      (i = s0.graph.length ∧ n = (⟨g, .ambig, none, m⟩ : Node)) := by
+    intro i n hn
+    rw [hg5] at hn
+    rcases mid_cases _ _ _ i n hn with h1 | h1 | h1
+    · exact Or.inl h1
+    · exact Or.inr h1
+    · cases h1.2.1
+  have hflag : ∀ d, flagAt s0.stack d → flagAt s5.stack d := fun d hd => (A.popExt P).flag hd
+  constructor
+  · refine ⟨fixes_of_eq A.i1.fixes P.oracle P.oracleDefault P.interrupted, ?_, ?_, A.popCo P, ?_, ?_, ?_, ?_, ?_, ?_, ?_, ?_, ?_⟩
+    · intro i n hn ha
+      rw [P.interrupted]; exact hint
+    · exact fun k v h => A.i1.cacheOK k v (P.inCache.mp h)
+    · have := A.L.inv.nodup
+      rw [A.gt] at this
+      rw [hg5]
+      simpa [List.map_append, headNode] using this
+    · intro i n hn v hc
+      cases hnode hn with
+      | inl h => exact A.i1.disj i n (A.g0 h.2) v (P.inCache.mp hc)
+      | inr h =>
+        rw [h.2] at hc
+        exact A.i1.disj _ _ A.head v (P.inCache.mp hc)
+    · intro i n hn
+      cases hnode hn with
+      | inl h => exact A.L.i0.inDom i n h.2
+      | inr h => rw [h.2]; exact A.L.gdom
+    · intro i n hn
+      cases hnode hn with
+      | inl h => exact A.L.i0.val i n h.2
+      | inr h => rw [h.2]; exact Or.inr (Or.inr rfl)
+    · intro i n hn hb
+      cases hnode hn with
+      | inl h => exact A.L.i0.approx i n h.2 hb
+      | inr h => rw [h.2] at hb; exact absurd hb.symm (bot_ne_ambig c)
+    · intro i n d hn hd
+      cases hnode hn with
+      | inl h =>
+        have := A.L.i0.stk i n d h.2 hd
+        exact ⟨by rw [P.slen]; exact this.1, this.2⟩
+      | inr h => rw [h.2] at hd; cases hd
+    · intro i n hn hd
+      cases hnode hn with
+      | inl h => exact A.L.i0.nonstk i n h.2 hd
+      | inr h => rw [h.2, h.1]; exact ⟨l, hm, hl⟩
+    · rw [hg5, stackGoals_append, P.slen, ← A.L.i0.cnt]
+      have : stackGoals [(⟨g, .ambig, none, m⟩ : Node)] = [] := by
+        apply stackGoals_nonstack
+        intro n hn
+        rw [List.mem_singleton.mp hn]
+      rw [this, List.append_nil]
+    · intro i n hn hd htop
+      cases hnode hn with
+      | inl h => exact J.mono (fun j hj => hj.from0 ⟨_, hg5⟩ hflag) (A.L.i0.just i n h.2 hd htop)
+      | inr h => rw [h.2] at htop; exact absurd htop.symm (top_ne_ambig c)
+  · refine ⟨⟨_, hg5, ?_⟩, A.popExt P, fun k v h => P.inCache.mpr (A.cacheExt k v h), ?_, ?_,
+      by rw [P.cache, A.step.cacheMode, A.L.cacheMode],
+      fun e => by rw [P.interrupted]; exact A.step.intr (A.L.intr e),
+      fun q => by
+        obtain ⟨q1, i1⟩ := A.L.quiet q
+        obtain ⟨q2, i2⟩ := A.step.quiet q1
+        exact ⟨⟨by rw [P.oracle]; exact q2.1, by rw [P.oracleDefault]; exact q2.2⟩,
+          fun e => by rw [P.interrupted]; exact i2 (i1 e)⟩⟩
+    · intro n hn
+      rw [List.mem_singleton.mp hn]; exact ⟨rfl, MinLe.refl _⟩
+    · intro k v h
+      cases h with
+      | inl h => exact Or.inl (P.inCache.mpr (A.cacheExt k v h))
+      | inr h =>
+        obtain ⟨i, n, hn, hgo, hvn⟩ := h
+        exact Or.inr ⟨i, n, by rw [hg5]; exact getElem?_prefix hn, hgo, hvn⟩
+    · intro k hu hd
+      apply loop_low A.L A.i1 A.step A.fact k hu
+      cases hd with
+      | inl h => exact Or.inl (Or.inl (P.inCache.mp h))
+      | inr h =>
+        obtain ⟨i, n, hn, hgo, hvn⟩ := h
+        cases hnode hn with
+        | inl h1 => exact absurd (Or.inr ⟨i, n, h1.2, hgo, hvn⟩) (hu _)
+        | inr h1 =>
+          rw [h1.2] at hvn
+          exact absurd hvn.symm (bot_ne_ambig c)
 
 end
 
